@@ -158,3 +158,40 @@ fn c17_gas_exhaustion_reported_at_every_limit_below_the_path_cost() {
     }
     println!("CASES c17_gas_limits {cases}");
 }
+
+/// a jump whose constant target is a 0x5b byte inside the data of a PUSH cut short by the end of the code (not an
+/// instruction boundary, so not a JUMPDEST): strict mode lists exactly one error, at the jump; permissive mode lists none
+#[test]
+fn c17_jump_into_cut_short_push_data() {
+    std::panic::set_hook(Box::new(|_| {}));
+    let mut cases = 0;
+    for n in [2usize, 5, 32] {
+        // `present` < n bytes of the immediate exist: the push is cut short
+        for present in 1..n.min(4) {
+            for jumpi in [false, true] {
+                // [PUSH1 1]? PUSH1 t JUMP|JUMPI STOP PUSHn 5b..      (t = offset of the first data byte)
+                let mut code: Vec<u8> = if jumpi { vec![0x60, 0x01] } else { vec![] };
+                code.extend([0x60, 0x00]);
+                let jump_at = code.len();
+                code.push(if jumpi { 0x57 } else { 0x56 });
+                code.push(0x00);
+                code.push(0x5f + n as u8);
+                let t = code.len();
+                code.extend(std::iter::repeat(0x5b).take(present));
+                code[jump_at - 1] = t as u8;
+                cases += 1;
+                let (Some(strict), Some(perm)) = (vm_errors(&code, false, 1_000_000), vm_errors(&code, true, 1_000_000)) else {
+                    witness("C17", "ctl.bad_target_in_cut_short_push", format!("{code:02x?}"), "PANIC or no disassembly".into(), "errors of both modes".into());
+                    continue;
+                };
+                if strict.len() != 1 || !strict[0].starts_with(&format!("{jump_at}:")) {
+                    witness("C17", "ctl.strict_surfaces_errors", format!("jump into the data of a cut-short PUSH{n}: {code:02x?}"), format!("strict errors {strict:?}"), format!("exactly one jump-target error located at {jump_at}"));
+                }
+                if !perm.is_empty() {
+                    witness("C17", "ctl.permissive_tolerates_bad_jump", format!("jump into the data of a cut-short PUSH{n}: {code:02x?}"), format!("permissive errors {perm:?}"), "none".into());
+                }
+            }
+        }
+    }
+    println!("CASES c17_cut_short_push {cases}");
+}
